@@ -9,6 +9,8 @@ import TephraProps.C16
 #print axioms Tephra.Props.C20_window_defined
 #print axioms Tephra.Props.C01_run_no_panic_partial
 #print axioms Tephra.Props.C01_run_no_panic_bracket_partial
+#print axioms Tephra.Props.C01_run_no_panic_from
+#print axioms Tephra.Props.C01_run_no_panic
 #print axioms Tephra.Props.C14_partial
 #print axioms Tephra.Props.C10_match_no_panic_no_fuel
 #print axioms Tephra.Props.C16_render_total_report
